@@ -51,6 +51,16 @@ def lemma_isum_le(a: A[int, 1], lo: int, hi: int, m: int):
 
 
 @lemma(shared=True)
+def lemma_isum_pointwise_le(a: A[int, 1], b: A[int, 1], lo: int, hi: int):
+    requires(forall(lo, hi, lambda t: a[t] <= b[t]))
+    ensures(ISUM(a, lo, hi) <= ISUM(b, lo, hi))
+    decreases(hi - lo)
+    unfold(ISUM(a, lo, hi), ISUM(b, lo, hi))
+    if hi > lo:
+        lemma_isum_pointwise_le(a, b, lo, hi - 1)
+
+
+@lemma(shared=True)
 def lemma_isum_ext(a: A[int, 1], b: A[int, 1], lo: int, hi: int):
     requires(forall(lo, hi, lambda t: a[t] == b[t]))
     ensures(ISUM(a, lo, hi) == ISUM(b, lo, hi))
